@@ -29,6 +29,22 @@ Proof. exact frames_exact. Qed.
 Theorem C05_time_frames_monotone : forall t1 t2 fps, (0 < fps)%Q -> (t1 <= t2)%Q -> frames_of t1 fps <= frames_of t2 fps.
 Proof. exact frames_monotone. Qed.
 
+(* clock time with frames (integer frame rate F, two-digit frames field): t >= 0 below 100 h is written hh:mm:ss:ff and read back under
+   the same frame rate as floor(t * F) / F, which is never later than t and earlier by less than one frame *)
+Theorem C05_time_clock_frames : forall t F tr, 2 <= F <= 99 -> (0 <= t)%Q -> (t < 360000 # 1)%Q ->
+  let k := (Qnum t * F) / (Zpos (Qden t) * 1) in
+  exists s, to_time_format SyClockFrames (Some (inject_Z F)) t = Some s /\
+            exists q, parse_time_x tr (Some (inject_Z F)) s = TVal q /\ (q == inject_Z k / inject_Z F)%Q.
+Proof. exact time_clock_frames. Qed.
+Theorem C05_time_clock_frames_error : forall t F, 0 < F ->
+  let k := (Qnum t * F) / (Zpos (Qden t) * 1) in
+  let q := (inject_Z k / inject_Z F)%Q in (q <= t)%Q /\ (t - q < 1 / inject_Z F)%Q.
+Proof. exact clock_frames_error. Qed.
+(* the frame rate itself: ttp:frameRate and ttp:frameRateMultiplier as the writer emits them are read back as the same rate, for each
+   of the seven frame rates of the property (finite domain, enumerated) *)
+Theorem C05_frame_rate_roundtrip : forallb rate_roundtrip [24 # 1; 25 # 1; 30 # 1; 50 # 1; 60 # 1; 24000 # 1001; 30000 # 1001]%Q = true.
+Proof. exact frame_rate_roundtrip. Qed.
+
 (* ---- attribute values -------------------------------------------------------------------------------------------------------- *)
 (* the 16 enumeration-valued properties (tables regenerated from the source): every member is read back *)
 Theorem C05_attr_roundtrip_enum : forall p o s, print_style p (SEnum o) = WAttr s -> read_style p s = Some (SEnum o).
@@ -74,14 +90,53 @@ Theorem C05_attr_roundtrip_padding_partial : forall b e a s, valid_len b -> vali
     len_equiv b b' /\ len_equiv e e' /\ len_equiv a a' /\ len_equiv s s'.
 Proof. exact padding_roundtrip. Qed.
 
+(* tts:textDecoration: all 27 values; tts:rubyReserve: none, a position, a position and a length; tts:textOutline: none, a
+   thickness, a colour and a thickness *)
+Theorem C05_attr_roundtrip_text_decoration : forall u l o,
+  exists s, print_style P_TextDecoration (STextDec u l o) = WAttr s /\ read_style P_TextDecoration s = Some (STextDec u l o).
+Proof. exact text_decoration_roundtrip. Qed.
+Theorem C05_attr_roundtrip_ruby_reserve_partial : forall pos l, 0 <= pos <= 3 -> valid_len l ->
+  read_style P_RubyReserve T_none = Some SNone /\ print_style P_RubyReserve SNone = WAttr T_none /\
+  (exists s, print_style P_RubyReserve (SReserve pos None) = WAttr s /\ read_style P_RubyReserve s = Some (SReserve pos None)) /\
+  (exists s, print_style P_RubyReserve (SReserve pos (Some l)) = WAttr s /\
+             exists l', read_style P_RubyReserve s = Some (SReserve pos (Some l')) /\ len_equiv l l').
+Proof. exact ruby_reserve_roundtrip. Qed.
+Theorem C05_attr_roundtrip_text_outline_partial : forall r g b a l, byte r -> byte g -> byte b -> byte a -> valid_len l ->
+  read_style P_TextOutline T_none = Some SNone /\ print_style P_TextOutline SNone = WAttr T_none /\
+  (exists s, print_style P_TextOutline (SOutline None l) = WAttr s /\
+             exists l', read_style P_TextOutline s = Some (SOutline None l') /\ len_equiv l l') /\
+  (exists s, print_style P_TextOutline (SOutline (Some (r, g, b, a)) l) = WAttr s /\
+             exists l', read_style P_TextOutline s = Some (SOutline (Some (r, g, b, a)) l') /\ len_equiv l l').
+Proof. exact text_outline_roundtrip. Qed.
+
+(* tts:position as the writer prints it (edge, offset, edge, offset) *)
+Theorem C05_attr_roundtrip_position_partial : forall he ho ve vo,
+  0 <= he <= 1 -> 0 <= ve <= 1 -> valid_len ho -> valid_len vo -> validate_style P_Position (SPosition he ho ve vo) = true ->
+  exists s, print_style P_Position (SPosition he ho ve vo) = WAttr s /\
+  exists ho' vo', read_style P_Position s = Some (SPosition he ho' ve vo') /\ len_equiv ho ho' /\ len_equiv vo vo'.
+Proof. exact position_roundtrip. Qed.
+
+(* tts:textShadow with one shadow, with or without blur radius and colour (two or more shadows: finding textshadow-list, refuted in
+   Findings/C05.v) *)
+Theorem C05_attr_roundtrip_text_shadow_partial : forall x y blur c, valid_len x -> valid_len y -> ovalid blur -> obyte c ->
+  read_style P_TextShadow T_none = Some SNone /\
+  exists s, print_style P_TextShadow (SShadows [(x, y, blur, c)]) = WAttr s /\
+  exists x' y' blur', read_style P_TextShadow s = Some (SShadows [(x', y', blur', c)]) /\
+    len_equiv x x' /\ len_equiv y y' /\ olen_equiv blur blur'.
+Proof. exact text_shadow_single_roundtrip. Qed.
+
+(* tts:textEmphasis: the seven styles, the three positions, without colour or with any RGBA8 colour (none: finding none-special-value) *)
+Theorem C05_attr_roundtrip_text_emphasis_partial : forall st pos c, 0 <= st <= 6 -> 0 <= pos <= 2 -> obyte c ->
+  exists s, print_style P_TextEmphasis (SEmph st c pos) = WAttr s /\ read_style P_TextEmphasis s = Some (SEmph st c pos).
+Proof. exact text_emphasis_roundtrip. Qed.
+
 (* the writer's value printers raise AttributeError only on tts:textEmphasis none (finding none-special-value; refuted witness in
    Findings/C05.v) and on `normal` outside tts:lineHeight, which is not a valid model value *)
 Theorem C05_total_partial : forall p v, print_style p v = WErr 3 ->
   (v = SNone /\ p = P_TextEmphasis) \/ (v = SNormal /\ p <> P_LineHeight).
 Proof. exact print_attribute_error. Qed.
-(* not proved (compared on generated documents only): the round trips of tts:position, tts:textOutline, tts:textShadow, tts:rubyReserve,
-   tts:textDecoration, tts:textEmphasis, tts:fontFamily, tts:opacity, tts:shear, tts:luminanceGain; clock_time_with_frames; the tree
-   round trip  read (write d cfg) ~ d. *)
+(* not proved (compared on generated documents only): the round trips of tts:fontFamily,
+   tts:opacity, tts:shear, tts:luminanceGain; the tree round trip  read (write d cfg) ~ d. *)
 
 (* non-vacuity *)
 Example C05_example_g : format_g (1 # 3) = [48; 46; 51; 51; 51; 51; 51; 51] /\ format_g (2500000 # 1) = [50; 46; 53; 101; 43; 48; 54] /\ uses_exponent (1 # 3) = false.
@@ -97,3 +152,5 @@ Print Assumptions C05_attr_roundtrip_length_partial.  Print Assumptions C05_attr
 Print Assumptions C05_attr_roundtrip_line_padding_partial.  Print Assumptions C05_attr_roundtrip_extent_partial.
 Print Assumptions C05_attr_roundtrip_origin_partial.  Print Assumptions C05_attr_roundtrip_padding_partial.
 Print Assumptions C05_total_partial.
+Print Assumptions C05_time_clock_frames.  Print Assumptions C05_time_clock_frames_error.  Print Assumptions C05_frame_rate_roundtrip.
+Print Assumptions C05_attr_roundtrip_text_decoration.  Print Assumptions C05_attr_roundtrip_ruby_reserve_partial.  Print Assumptions C05_attr_roundtrip_text_outline_partial.  Print Assumptions C05_attr_roundtrip_position_partial.  Print Assumptions C05_attr_roundtrip_text_shadow_partial.  Print Assumptions C05_attr_roundtrip_text_emphasis_partial.
